@@ -193,9 +193,14 @@ Definition runk (k : opk) (n a : Z) (o : operand) : res (Z * Z) :=
           m2.append(f'Bits{n}({u0}; next={nx0}).{meth}({o})')
           ctx.count((kind, n, o), True, cls=kind + (':err' if t.startswith('Err') else ''))
   # mk_bits / BitsN subclasses construct the same values
-  for n in [1, 8, 32, 255, 256, 300, 1023]:
-    T = mk_bits(n)
-    for k in [0, (1 << n) - 1, -(1 << (n-1)), 1 << n]:
+  import pymtl3.datatypes.bits_import as BI
+  allN = sorted(set(BI._bitwidths)) + [256, 300, 1023]
+  for n in allN:
+    T = getattr(BI, f'Bits{n}', None) or mk_bits(n)
+    if T.nbits != n or T.__name__ != f'Bits{n}':
+      ctx.violation(f'C04:BitsN-class:{n}', f'Bits{n} class reports nbits={T.nbits} name={T.__name__}', {'n': n})
+    ks = [0, (1 << n) - 1, -(1 << (n-1)), 1 << n] if n <= 64 or n in (255, 256, 384, 512, 1023) else [(1 << n) - 1, -(1 << (n-1)) - 1]
+    for k in ks:
       r = res_of(lambda: T(k))
       t = r[0] if isinstance(r, tuple) else bits_res(r)[0]
       c2.append(f'(KInit false, {n}, 0, 0, (OInt {zlit(k)}), {t})'); m2.append(f'mk_bits({n})({k})')
